@@ -185,6 +185,16 @@ func labels(c Case) []string {
 			extraRefs = true
 		}
 	}
+	longest := 0
+	for _, ln := range strings.Split(string(write(c)), "\n") {
+		longest = max(longest, len(ln))
+	}
+	switch {
+	case longest > 65536:
+		l = append(l, "longest line > 65536 bytes")
+	case longest > 4096:
+		l = append(l, "longest line 4097..65536 bytes")
+	}
 	if usesFirst {
 		l = append(l, "a record uses the first supplier of the table")
 	}
@@ -224,6 +234,9 @@ func gen(t *rapid.T) Case {
 		}
 		c.Header = append(c.Header, h)
 	}
+	if rapid.IntRange(0, 19).Draw(t, "long_header_line") == 0 {
+		c.Header = append(c.Header, "note "+vk.Fill(rapid.Uint64().Draw(t, "long_header_fill"), vk.DrawSize(t, "long_header", 1000, 70000), "abcdefgh "))
+	}
 	codes := rapid.SliceOfNDistinct(rapid.SampledFrom(strings.Split("ABCDEFGHIJKLMNOPQRSTUVWXYZ", "")), 0, 20, func(s string) string { return s }).Draw(t, "supplier_codes")
 	for _, code := range codes {
 		name := rapid.StringMatching(`[A-Z][A-Za-z.,&-]{1,12}( [A-Za-z.,&-]{1,12}){0,3} \([0-9]{1,2}/[0-9]{2}\)`).Draw(t, "supplier_name")
@@ -251,6 +264,19 @@ func gen(t *rapid.T) Case {
 		var iso []string
 		for j := 0; j < ni; j++ {
 			iso = append(iso, enzymeNameGen.Draw(t, "isoschizomer"))
+		}
+		// long lines: now and then a list of hundreds of isoschizomers, or an organism / source text of
+		// thousands of characters (a REBASE field is one line however long it is)
+		switch rapid.IntRange(0, 39).Draw(t, "long_field") {
+		case 0:
+			many := vk.DrawSize(t, "n_isoschizomers_many", 100, 3000)
+			for j := 0; j < many; j++ {
+				iso = append(iso, fmt.Sprintf("Iso%dI", j))
+			}
+		case 1:
+			r.Org = "Bacillus " + vk.Fill(rapid.Uint64().Draw(t, "long_organism_fill"), vk.DrawSize(t, "long_organism", 1000, 70000), "abcdefgh ") + "x"
+		case 2:
+			r.Src = "ATCC " + vk.Fill(rapid.Uint64().Draw(t, "long_source_fill"), vk.DrawSize(t, "long_source", 1000, 70000), "0123456789 ") + "9"
 		}
 		r.Iso = strings.Join(iso, ",")
 		if len(codes) > 0 {
